@@ -155,6 +155,15 @@ func (p *ldProc) cmdSource() string {
 	return sim.FormatCommand(sim.Script{W: 0}, p.CmdRest)
 }
 
+// normNum: case parameters travel as JSON, where integers become float64;
+// the YAML file carries them as integers again (see yamlScalar)
+func normNum(v any) any {
+	if f, ok := v.(float64); ok && f == math.Trunc(f) && math.Abs(f) < 1e15 {
+		return int(f)
+	}
+	return v
+}
+
 func sortedKeys(m map[string]any) []string {
 	var ks []string
 	for k := range m {
@@ -284,10 +293,10 @@ func runLoadDet(c fw.Case) fw.Result {
 			// per-replica rendering with this replica's own variables
 			vars := map[string]any{}
 			for k2, v := range sp.Vars {
-				vars[k2] = v
+				vars[k2] = normNum(v)
 			}
 			for k2, v := range ps.Vars {
-				vars[k2] = v
+				vars[k2] = normNum(v)
 			}
 			vars["PC_REPLICA_NUM"] = k
 			chk := func(field, got, src string) {
